@@ -123,7 +123,10 @@ def judge(ctx, cases, with_model, stats):
         if i in tmpl:
             stats["template-judged"] += 1
             want = "V=" + (",".join(g["v"]) or "-")
-            if tmpl[i] != want:
+            if tmpl[i] != want and c.expect is None and tmpl[i].startswith("V=") and (tmpl[i] == "V=-") != (want == "V=-"):
+                ctx.violation(c.replay(expect="accept" if tmpl[i] == "V=-" else "reject", model=tmpl[i], go=g["v"]),
+                              f"{c.label} rules: the decision-table model says {tmpl[i]}, the analyzer {want}")
+            elif tmpl[i] != want:
                 tie_bad += 1
                 if tie_bad <= 3:
                     ctx.broken.append(f"correspondence:{c.label}:{c.where}: go={want} model={tmpl[i]} text={c.text[:300]!r}")
